@@ -1163,3 +1163,73 @@ pub mod forwarded {
         pipe.exchange(timeout).await.map_err(|e| format!("{:?}: {}", e.kind(), e))
     }
 }
+
+/// `TlsListener`: client random extraction, the replaying stream, and the whole accept path
+pub mod tls {
+    use crate::tls_demultiplexer::Protocol;
+    use crate::tls_listener::{self, TlsListener};
+    use tokio::io::{AsyncReadExt, AsyncWriteExt};
+    use tokio::net::TcpStream;
+
+    /// `TlsListener::extract_client_random` on a buffer: 0 = found (value follows), 1 = need more data, 2 = not found
+    pub fn extract_client_random(data: &[u8]) -> (u8, Vec<u8>) {
+        tls_listener::verif_hooks::extract(data)
+    }
+
+    /// `read_client_random_and_wrap_stream`, then everything the wrapped stream yields until `total` bytes or end of stream
+    pub async fn peek_and_replay(stream: TcpStream, total: usize) -> std::io::Result<(Option<Vec<u8>>, Vec<u8>)> {
+        let (mut wrapped, cr) = tls_listener::verif_hooks::peek(stream).await?;
+        let mut got = vec![];
+        let mut buf = vec![0u8; 4096];
+        while got.len() < total {
+            let n = wrapped.read(&mut buf).await?;
+            if n == 0 {
+                break;
+            }
+            got.extend_from_slice(&buf[..n]);
+        }
+        Ok((cr, got))
+    }
+
+    pub struct Accepted {
+        pub client_random: Option<Vec<u8>>,
+        pub sni: Option<String>,
+        pub alpn: Vec<Vec<u8>>,
+        /// application bytes read after the handshake (echoed back to the client)
+        pub echoed: Vec<u8>,
+    }
+
+    /// `TlsListener::listen` + `TlsAcceptor::accept` with the given certificate, then echoes `expect` bytes
+    pub async fn accept_and_echo(
+        stream: TcpStream,
+        cert_chain_path: &str,
+        key_path: &str,
+        http2: bool,
+        expect: usize,
+    ) -> std::io::Result<Accepted> {
+        let acceptor = TlsListener::new().listen(stream).await?;
+        let client_random = acceptor.client_random();
+        let sni = acceptor.sni();
+        let alpn = acceptor.alpn();
+        let certs = crate::utils::load_certs(cert_chain_path)?;
+        let key = crate::utils::load_private_key(key_path)?;
+        let mut tls = acceptor
+            .accept(
+                if http2 { Protocol::Http2 } else { Protocol::Http1 },
+                certs,
+                key,
+                &crate::log_utils::IdChain::empty(),
+            )
+            .await?;
+        let mut echoed = vec![0u8; expect];
+        tls.read_exact(&mut echoed).await?;
+        tls.write_all(&echoed).await?;
+        tls.flush().await?;
+        Ok(Accepted {
+            client_random,
+            sni,
+            alpn,
+            echoed,
+        })
+    }
+}
